@@ -241,6 +241,10 @@ impl AsCborValue for Header {
             }
         }
         let mut seen = BTreeSet::new();
+        // The labels already emitted for the typed fields count as seen too.
+        for (label, _value) in map.iter() {
+            seen.insert(Label::from_cbor_value(label.clone())?);
+        }
         for (label, value) in self.rest.into_iter() {
             if seen.contains(&label) {
                 return Err(CoseError::DuplicateMapKey);
